@@ -72,6 +72,12 @@ def build_model(kind):
         # non-initial gene states: g3 knocked out (no reaction goes with it), g1 flagged through the setter only
         m.genes.g3.knock_out()
         m.genes.g1.functional = False
+    elif kind == "objective_fixed":
+        # the caller has pinned the objective with the library's own helper (outside any context): the model carries a
+        # row with the very name that the analyses' helper calls use
+        from cobra.util.solver import fix_objective_as_constraint
+
+        fix_objective_as_constraint(m, fraction=0.5)
     elif kind == "tolerance":
         m.tolerance = 1e-8
         R.r1.bounds = (0.5, 10)
@@ -119,7 +125,7 @@ def build_model(kind):
 
 
 MODEL_KINDS = ["bench", "cycle", "infeasible", "unbounded", "zero_optimum", "empty_objective", "two_substrates", "gap",
-               "minimising", "gene_flagged", "tolerance", "exact"]
+               "minimising", "gene_flagged", "tolerance", "exact", "objective_fixed"]
 
 
 def analyses():
@@ -433,7 +439,7 @@ def explore(ctx):
         "traces_validated_against_impl": stats.get("runs", 0) + stats.get("fault_runs", 0),
         "evaluations": stats.get("runs", 0) + stats.get("fault_runs", 0), "distinct_nontrivial": stats.get("fault_runs", 0),
         "rule": "%d analyses x %d model classes (feasible bench, internal cycle, infeasible, unbounded, zero optimum, empty "
-                "objective, two alternative substrates, gap, minimising, genes flagged non-functional, non-default tolerance, glpk_exact) x {outside, inside a user context after one edit}: fault-free run, repeat run, and every single "
+                "objective, two alternative substrates, gap, minimising, genes flagged non-functional, non-default tolerance, glpk_exact, objective pinned by fix_objective_as_constraint) x {outside, inside a user context after one edit}: fault-free run, repeat run, and every single "
                 "injected solver failure at solve k <= %s (+ last) x {raise SolverError, report infeasible, report undefined}%s; "
                 "ordered snapshot (content, raw LP, solver configuration) before == after; non-trivial = runs with an injected "
                 "fault" % (len(names), len(MODEL_KINDS), 20 if ctx.tier == "quick" else 60,
